@@ -437,6 +437,15 @@ func c12SpecAgreement(t *testing.T, c *ev.Collector) {
 					if trimmed {
 						url = strings.TrimRight(base, "/") + Procedure
 					}
+					// a query or a fragment is not part of the procedure's name
+					switch {
+					case base == "http://h/pre/fix" && trimmed:
+						url += "?tenant=acme"
+					case base == "http://h/pre/fix" && !trimmed:
+						url += "?next=/home/start"
+					case base == "https://h:1/pre/" && trimmed:
+						url += "#top"
+					}
 					key := fmt.Sprintf("spec/%s/%s/%s", url, kind, p)
 					c.Case(key, true)
 					Bubble(t, func() {
